@@ -345,6 +345,7 @@ type Contract struct {
 
 // AtCall: an assertion over the caller's variables that must hold at every call to the named callee inside this function.
 type AtCall struct {
+	Ordinal int // 0 = every call; n = only the n-th call to the callee
 	Callee string
 	Clause Clause
 }
@@ -630,7 +631,13 @@ func (S *Specs) LoadSpecFile(path, pkgPath string) error {
 			if err != nil {
 				return fail(l.n, "%v", err)
 			}
-			cur.AtCalls = append(cur.AtCalls, AtCall{Callee: f[0], Clause: Clause{Label: lbl, Expr: e, Src: f[2]}})
+			callee, ord := f[0], 0
+			if i := strings.Index(callee, "#"); i >= 0 {
+				// Callee#n: only the n-th call to that callee (source order)
+				fmt.Sscanf(callee[i+1:], "%d", &ord)
+				callee = callee[:i]
+			}
+			cur.AtCalls = append(cur.AtCalls, AtCall{Callee: callee, Ordinal: ord, Clause: Clause{Label: lbl, Expr: e, Src: f[2]}})
 		case "modifies":
 			if cur == nil {
 				return fail(l.n, "modifies outside func")
